@@ -189,4 +189,27 @@ def sawtooth (V : Variant) (point : Vec) (ubQ : List Vec) (A : Nat) (pts : List 
         let w := head ++ zerosN N
         some ⟨v, some (w.set (if V.sawNoOffset then acc.minI else S + acc.minI) c)⟩
 
+/-- `sawtoothInterpolation` as the source reads since the guard `minCF >= 0.0 ||` was added to the early exit
+    (`Gen.C12Src.sawGuard`): when no stored point helped, the corner-only answer is returned whatever rounding did to
+    `basicV <= v`. In exact arithmetic the guard is redundant (`sawtoothG_eq_sawtooth` in Props/C12SawGuard). -/
+def sawtoothG (guard : Bool) (V : Variant) (point : Vec) (ubQ : List Vec) (A : Nat) (pts : List Vec) (vals : Vec) : Option Out :=
+  let S := point.length
+  let N := pts.length
+  let cv := cornerVals ubQ
+  let acc := sawLoop point cv pts vals 0 {}
+  let bV := basicV point ubQ A
+  let v := dot point cv + acc.minCF
+  if (guard && decide (0 ≤ acc.minCF)) || (if V.sawStrict then decide (bV < v) else decide (bV ≤ v)) then
+    some ⟨bV, some (point ++ zerosN N)⟩
+  else
+    match pts[acc.minI]? with
+    | none => none
+    | some p =>
+      match acc.minC with
+      | none => some ⟨v, none⟩
+      | some c =>
+        let head := List.zipWith (fun x y => x - y * c) point p
+        let w := head ++ zerosN N
+        some ⟨v, some (w.set (if V.sawNoOffset then acc.minI else S + acc.minI) c)⟩
+
 end AITB.Interp
